@@ -30,4 +30,11 @@ inductive Guard
   | always | block0 | incontains | modprocGuard
   deriving DecidableEq, Repr
 
+/-- what the real reader was seen to do on a probe file (Generated/C20.lean, `eofProbes`) -/
+inductive ProbeObs
+  | items (xs : List Str)   -- it yielded these logical lines and stopped
+  | raised                  -- it raised
+  | hung                    -- it did not come back within the watchdog time
+  deriving DecidableEq, Repr
+
 end Ford
